@@ -207,9 +207,11 @@ func c06Run(c *core.Ctx, scn stopScn, h *hist.History, l *hist.Layout, tables []
 	// Rand) is a failure only for a library that does not support it: if the
 	// stream went on and delivered exactly the whole history up to the
 	// master's EOF, nothing failed and the attempt is judged as an EOF ending.
-	if cls == "unsupported-event" && streamErr == nil {
+	// (likewise a header-only event the library had no reason to decode where
+	// it arrived — a ROTATE before the first format description is skipped unread)
+	if (cls == "unsupported-event" || strings.HasPrefix(spec.Kind, "inject-hdronly-")) && streamErr == nil && res.Panic == "" {
 		if exp := hist.Expect(h, l, start); wholeHistoryDelivered(exp, res.Delivered) {
-			c.Cell("unsupported-event-tolerated(judged as eof)")
+			c.Cell("injected-event-tolerated(judged as eof):" + spec.Kind)
 			cls = "eof"
 		}
 	}
